@@ -790,6 +790,23 @@ class Normalizer:
                 for s_ in low:
                     out += self._stmt(s_, modname, cname, stack, state)
                 return out
+        if isinstance(st, ast.For) and isinstance(st.iter, ast.Call) and isinstance(st.iter.func, ast.Attribute) and st.iter.func.attr == "items" \
+                and not st.iter.args and not st.iter.keywords and _side_effect_free(st.iter.func.value) \
+                and isinstance(st.target, (ast.Tuple, ast.List)) and len(st.target.elts) == 2 and all(isinstance(e, ast.Name) for e in st.target.elts):
+            # N18: for k, v in D.items(): B   ->   for k in D: v = D[k]; B        (D a plain name / attribute path that B does not re-bind)
+            dn = {n.id for n in ast.walk(st.iter.func.value) if isinstance(n, ast.Name)}
+            kname, vname = st.target.elts[0].id, st.target.elts[1].id
+            stores = {n.id for x in st.body for n in ast.walk(x) if isinstance(n, ast.Name) and isinstance(n.ctx, (ast.Store, ast.Del))}
+            if not (dn & (stores | {kname, vname})) and kname != vname and kname not in stores:
+                d = st.iter.func.value
+                asg = ast.Assign(targets=[ast.Name(id=vname, ctx=ast.Store())],
+                                 value=ast.Subscript(value=copy.deepcopy(d), slice=ast.Name(id=kname, ctx=ast.Load()), ctx=ast.Load()), type_comment=None)
+                ast.copy_location(asg, st)
+                ast.fix_missing_locations(asg)
+                st.target = ast.copy_location(ast.Name(id=kname, ctx=ast.Store()), st.target)
+                st.iter = d
+                st.body = [asg] + st.body
+                self.lowered.append((state["caller"], getattr(st, "lineno", 0), "dict-items"))
         if isinstance(st, (ast.For, ast.AsyncFor)):
             st.body = rec(st.body)
             st.orelse = rec(st.orelse)
